@@ -30,7 +30,11 @@ Local Open Scope N_scope.
 Definition C17_full_statement : Prop :=
   forall e, in_quantifier e = true -> exists cs, compile e = Ok cs /\ C17_spec e cs.
 
-(* REFUTED (the faithful model and the real compiler agree on each witness; KNOWN_FINDINGS.txt):
+(* REFUTED (the faithful model and the real compiler agree on each witness; KNOWN_FINDINGS.txt).
+   The contradicted clause is the first one: "Each entity declaration YIELDS Keys, Data, ... a query
+   service with Get, List and Events methods, ... one upsert topic per summary": each witness below
+   is a declaration inside the quantifier that the compiler REJECTS (link error `symbol ... already
+   defined`, because the expansion puts a field of its own next to the user's), so it yields nothing.
    a primary key named page or query is inside the quantifier and its expansion does not link *)
 Theorem C17_full_refuted : ~ C17_full_statement.
 Proof. exact full_refuted. Qed.
@@ -53,31 +57,6 @@ Theorem C17_event_type_refuted :
 Proof. exact event_type_refuted. Qed.
 Print Assumptions C17_event_type_refuted.
 
-(* a key named status (metadata, data) compiles and State then has two JSON properties of that
-   name; a key named event (metadata) does the same to Event *)
-Theorem C17_state_property_clash_refuted :
-  exists cs m, in_quantifier (mk_min "status") = true /\ compile (mk_min "status") = Ok cs
-    /\ has_msg cs 0 m /\ m_name m = sp_name (mk_min "status") "State"
-    /\ json_props cs m = [bs "metadata"; bs "status"; bs "data"; bs "status"]
-    /\ ~ NoDup (json_props cs m).
-Proof. exact state_property_clash_refuted. Qed.
-Print Assumptions C17_state_property_clash_refuted.
-
-Theorem C17_event_property_clash_refuted :
-  exists cs m, in_quantifier (mk_min "event") = true /\ compile (mk_min "event") = Ok cs
-    /\ has_msg cs 0 m /\ m_name m = sp_name (mk_min "event") "Event"
-    /\ json_props cs m = [bs "metadata"; bs "event"; bs "event"].
-Proof. exact event_property_clash_refuted. Qed.
-Print Assumptions C17_event_property_clash_refuted.
-
-(* an optional array (or map) compiles to a repeated field inside a oneof: the compiler links it,
-   protodesc.NewFiles - the first step of deriving the client API - rejects the package *)
-Theorem C17_optional_repeated_refuted :
-  exists cs, in_quantifier optional_array_sample = true /\ reserved_free optional_array_sample = true
-    /\ compile optional_array_sample = Ok cs /\ client_accepts cs = false.
-Proof. exact optional_repeated_refuted. Qed.
-Print Assumptions C17_optional_repeated_refuted.
-
 (* an entity named Page (or Events, with eventsInGet): the entity's own property in the List (Get)
    response has the name of the page (events) property next to it *)
 Theorem C17_entity_named_page_refuted :
@@ -85,18 +64,14 @@ Theorem C17_entity_named_page_refuted :
 Proof. exact entity_named_page_refuted. Qed.
 Print Assumptions C17_entity_named_page_refuted.
 
-Theorem C17_status_case_refuted :
-  exists cs, in_quantifier status_case_sample = true /\ reserved_free status_case_sample = true
-    /\ compile status_case_sample = Ok cs /\ client_accepts cs = false.
-Proof. exact status_case_refuted. Qed.
-Print Assumptions C17_status_case_refuted.
-
 (* PARTIAL (1): THE FULL STATEMENT HOLDS FOR EVERY DECLARATION WITHOUT RESERVED NAMES.
-   [reserved_free e]: no primary/shard key named page or query, no key named metadata / data /
-   status / event, no summary field named upsert, no event or oneof option named type, the entity
-   not named page (nor events when eventsInGet is set) - exactly the names the expansion itself
-   puts next to the user's.  Such a declaration in the quantifier is ACCEPTED (parser validation,
-   walker, conversion, link step) and its output satisfies every clause of the specification. *)
+   [reserved_free e]: no primary/shard key named page or query, no summary field named upsert, no
+   event or oneof option named type, the entity not named page (nor events when eventsInGet is set)
+   - exactly the names that make the compiler reject the declaration (the four refutations above).
+   Such a declaration in the quantifier is ACCEPTED (parser validation, walker, conversion, link
+   step) and its output satisfies every clause of the specification.  A key named metadata / data /
+   status / event, an optional array or map, statuses that differ only in case are NOT reserved:
+   they are inside the quantifier and satisfy the property (see C17_unreserved_names below). *)
 Theorem C17_full_modulo_reserved : forall e, in_quantifier e = true -> reserved_free e = true ->
   exists cs, compile e = Ok cs /\ C17_spec e cs.
 Proof. exact full_modulo_reserved. Qed.
@@ -111,18 +86,41 @@ Theorem C17_acceptance : forall e, in_quantifier e = true -> reserved_free e = t
 Proof. exact acceptance. Qed.
 Print Assumptions C17_acceptance.
 
+(* names and shapes that earlier versions of this check recorded as findings and that contradict NO
+   clause of C17 (known-findings audit 2.6-2.8): they are inside the quantifier, free of reserved names,
+   and therefore covered by C17_full_modulo_reserved.  What they do to other properties' clauses
+   (C18: unique property names; C16: the client API derives without error) is stated in
+   proofs/EntitySpecProofs.v as facts about the model (state_property_names_witness,
+   status_case_in_scope), not as refutations of C17. *)
+Theorem C17_unreserved_names :
+  forallb (fun n => in_quantifier (mk_min n) && reserved_free (mk_min n))
+          ["status"; "metadata"; "data"; "event"; "keys"; "events"]%string = true
+  /\ (in_quantifier optional_array_sample = true /\ reserved_free optional_array_sample = true)
+  /\ (in_quantifier status_case_sample = true /\ reserved_free status_case_sample = true).
+Proof.
+  exact (conj property_named_keys_in_scope
+        (conj (conj (proj1 optional_array_in_scope) (proj1 (proj2 optional_array_in_scope)))
+              (conj (proj1 status_case_in_scope) (proj1 (proj2 status_case_in_scope))))).
+Qed.
+Print Assumptions C17_unreserved_names.
+
 (* PARTIAL (2): for EVERY declaration the model compiles (in the quantifier or not, reserved
    names or not) the output satisfies the core specification; for declarations in the
    quantifier the path parameters of Get and Events are exactly the primary and shard keys in
    declaration order and Events = Get + "/events" (no clean-path hypothesis: path.Join's
-   cleaning is part of the proof); State / Event are objects when no key uses one of their
-   property names. *)
+   cleaning is part of the proof). *)
 Theorem C17_full_partial : forall e cs, compile e = Ok cs ->
-  C17_spec_core e cs
-  /\ (in_quantifier e = true -> spec_query_paths e cs)
-  /\ (in_quantifier e = true -> reserved_free e = true -> spec_objects e cs).
+  C17_spec_core e cs /\ (in_quantifier e = true -> spec_query_paths e cs).
 Proof. exact full_partial. Qed.
 Print Assumptions C17_full_partial.
+
+(* NOT a clause of C17 (it is C18's "property names are unique within each object", seen from the
+   declaration): State / Event have pairwise distinct JSON properties - after flattening the keys -
+   whenever no key is named metadata / data / status / event *)
+Theorem C17_objects_distinct_props : forall e cs, compile e = Ok cs ->
+  in_quantifier e = true -> state_event_names_free e = true -> spec_objects e cs.
+Proof. exact objects_distinct_props. Qed.
+Print Assumptions C17_objects_distinct_props.
 
 (* what acceptance by [compile] means: at least one status (the parser's validation), the
    conversion succeeded (references resolve, no optional+required field, path parameters are
@@ -198,14 +196,17 @@ Example C17_expand_total : forall e, is_panic (expand e) = false /\ expand e <> 
 Proof. exact expand_total. Qed.
 Print Assumptions C17_expand_total.
 
-(* Go panics are not hidden by the model: the conversion panics exactly when the walker accepted a
-   declaration whose query block carries listRequest / eventsListRequest settings (SetExtension of a
-   MessageOptions extension on MethodOptions in visitServiceMethodNode; cmpb's known C07 finding;
-   outside C17's quantifier: [in_quantifier] requires list_settings e = false) *)
-Theorem C17_convert_panics : forall e,
-  is_panic (convert e) = true <-> (exists cs, expand e = Ok cs) /\ list_settings e = true.
-Proof. exact convert_panics. Qed.
-Print Assumptions C17_convert_panics.
+(* Go panics are not hidden by the model - and the conversion has none: listRequest /
+   eventsListRequest settings in the query block (outside C17's quantifier: [in_quantifier] requires
+   list_settings e = false) are a positioned conversion error since fix 985f10a (before,
+   proto.SetExtension of a MessageOptions extension on MethodOptions panicked) *)
+Theorem C17_convert_never_panics : forall e, is_panic (convert e) = false /\ convert e <> OutOfFuel.
+Proof. exact convert_never_panics. Qed.
+Print Assumptions C17_convert_never_panics.
+
+Theorem C17_convert_list_settings : forall e, list_settings e = true -> forall cs, convert e <> Ok cs.
+Proof. exact convert_list_settings. Qed.
+Print Assumptions C17_convert_list_settings.
 
 (* 3. the same annotation everywhere: psm options and service options carry
       ToSnake(name), topics carry <package>.ToCamel(name) *)
